@@ -171,9 +171,287 @@ mod v4 {
     }
 }
 
+
+mod v5 {
+    use rumqttc::v5::mqttbytes::v5::*;
+    use rumqttc::v5::mqttbytes::QoS;
+    use rumqttc::v5::{Event, MqttState, Request, StateError};
+    use rumqttc::Outgoing;
+
+    pub fn qos(s: &str) -> QoS {
+        match s {
+            "0" => QoS::AtMostOnce,
+            "1" => QoS::AtLeastOnce,
+            "2" => QoS::ExactlyOnce,
+            _ => panic!("bad qos"),
+        }
+    }
+    fn num(s: &str) -> u16 {
+        s.parse().expect("number")
+    }
+    fn optn(s: &str) -> Option<u16> {
+        if s == "-" { None } else { Some(num(s)) }
+    }
+    /// topic tag 0 = the empty topic
+    pub fn mk_pub(t: &[&str]) -> Publish {
+        let topic = if t[2] == "0" { String::new() } else { format!("t{}", t[2]) };
+        let alias = if t.len() > 4 { optn(t[4]) } else { None };
+        let props = alias.map(|a| PublishProperties { topic_alias: Some(a), ..Default::default() });
+        let mut p = Publish::new(topic, qos(t[0]), t[3].as_bytes().to_vec(), props);
+        p.pkid = num(t[1]);
+        p
+    }
+    fn tag(b: &[u8]) -> String {
+        if b.is_empty() {
+            return "0".into();
+        }
+        match std::str::from_utf8(b).ok().and_then(|s| s.strip_prefix('t')) {
+            Some(r) if r.parse::<u64>().is_ok() => r.to_string(),
+            _ => format!("x{}", crate::hex(b)),
+        }
+    }
+    fn ptag(b: &[u8]) -> String {
+        match std::str::from_utf8(b) {
+            Ok(r) if r.parse::<u64>().is_ok() => r.to_string(),
+            _ => format!("x{}", crate::hex(b)),
+        }
+    }
+    pub fn pub_s(p: &Publish) -> String {
+        let a = p.properties.as_ref().and_then(|x| x.topic_alias).map(|a| format!(":a{a}")).unwrap_or_default();
+        format!("PUB:{}:{}:{}:{}{}", p.qos as u8, p.pkid, tag(&p.topic), ptag(&p.payload), a)
+    }
+    fn filters(n: usize) -> Vec<Filter> {
+        (0..n).map(|i| Filter::new(format!("f{i}"), QoS::AtMostOnce)).collect()
+    }
+    fn ack_reason(t: &[&str]) -> u8 {
+        if t.len() > 2 { t[2].parse().unwrap() } else { 0 }
+    }
+    fn puback_reason(r: u8) -> PubAckReason {
+        match r {
+            0 => PubAckReason::Success,
+            16 => PubAckReason::NoMatchingSubscribers,
+            128 => PubAckReason::UnspecifiedError,
+            135 => PubAckReason::NotAuthorized,
+            151 => PubAckReason::QuotaExceeded,
+            _ => panic!("unsupported puback reason {r}"),
+        }
+    }
+    fn pubrec_reason(r: u8) -> PubRecReason {
+        match r {
+            0 => PubRecReason::Success,
+            16 => PubRecReason::NoMatchingSubscribers,
+            128 => PubRecReason::UnspecifiedError,
+            135 => PubRecReason::NotAuthorized,
+            151 => PubRecReason::QuotaExceeded,
+            _ => panic!("unsupported pubrec reason {r}"),
+        }
+    }
+    fn puback_n(r: PubAckReason) -> u8 {
+        match r {
+            PubAckReason::Success => 0,
+            PubAckReason::NoMatchingSubscribers => 16,
+            PubAckReason::UnspecifiedError => 128,
+            PubAckReason::ImplementationSpecificError => 131,
+            PubAckReason::NotAuthorized => 135,
+            PubAckReason::TopicNameInvalid => 144,
+            PubAckReason::PacketIdentifierInUse => 145,
+            PubAckReason::QuotaExceeded => 151,
+            PubAckReason::PayloadFormatInvalid => 153,
+        }
+    }
+    fn pubrec_n(r: PubRecReason) -> u8 {
+        match r {
+            PubRecReason::Success => 0,
+            PubRecReason::NoMatchingSubscribers => 16,
+            PubRecReason::UnspecifiedError => 128,
+            PubRecReason::ImplementationSpecificError => 131,
+            PubRecReason::NotAuthorized => 135,
+            PubRecReason::TopicNameInvalid => 144,
+            PubRecReason::PacketIdentifierInUse => 145,
+            PubRecReason::QuotaExceeded => 151,
+            PubRecReason::PayloadFormatInvalid => 153,
+        }
+    }
+    fn disc_reason(r: u8) -> DisconnectReasonCode {
+        match r {
+            0 => DisconnectReasonCode::NormalDisconnection,
+            130 => DisconnectReasonCode::ProtocolError,
+            139 => DisconnectReasonCode::ServerShuttingDown,
+            142 => DisconnectReasonCode::SessionTakenOver,
+            _ => panic!("unsupported disconnect reason {r}"),
+        }
+    }
+    pub fn request(t: &[&str]) -> Request {
+        match t[0] {
+            "PUB" => Request::Publish(mk_pub(&t[1..])),
+            "PUBACK" => Request::PubAck(PubAck::new(num(t[1]), None)),
+            "PUBREC" => Request::PubRec(PubRec::new(num(t[1]), None)),
+            "PUBCOMP" => Request::PubComp(PubComp::new(num(t[1]), None)),
+            "PUBREL" => Request::PubRel(PubRel::new(num(t[1]), None)),
+            "PINGREQ" => Request::PingReq,
+            "PINGRESP" => Request::PingResp,
+            "SUB" => Request::Subscribe(Subscribe { pkid: 0, filters: filters(num(t[1]) as usize), properties: None }),
+            "SUBACK" => Request::SubAck(SubAck { pkid: num(t[1]), return_codes: vec![SubscribeReasonCode::Success(QoS::AtMostOnce)], properties: None }),
+            "UNSUB" => Request::Unsubscribe(Unsubscribe { pkid: 0, filters: (0..num(t[1])).map(|i| format!("f{i}")).collect(), properties: None }),
+            "UNSUBACK" => Request::UnsubAck(UnsubAck { pkid: num(t[1]), reasons: vec![UnsubAckReason::Success], properties: None }),
+            "DISCONNECT" => Request::Disconnect,
+            o => panic!("bad request {o}"),
+        }
+    }
+    pub fn packet(t: &[&str]) -> Packet {
+        match t[0] {
+            "PUB" => Packet::Publish(mk_pub(&t[1..])),
+            "PUBACK" => Packet::PubAck(PubAck { pkid: num(t[1]), reason: puback_reason(ack_reason(t)), properties: None }),
+            "PUBREC" => Packet::PubRec(PubRec { pkid: num(t[1]), reason: pubrec_reason(ack_reason(t)), properties: None }),
+            "PUBREL" => Packet::PubRel(PubRel {
+                pkid: num(t[1]),
+                reason: if ack_reason(t) == 0 { PubRelReason::Success } else { PubRelReason::PacketIdentifierNotFound },
+                properties: None,
+            }),
+            "PUBCOMP" => Packet::PubComp(PubComp {
+                pkid: num(t[1]),
+                reason: if ack_reason(t) == 0 { PubCompReason::Success } else { PubCompReason::PacketIdentifierNotFound },
+                properties: None,
+            }),
+            "SUBACK" => Packet::SubAck(SubAck { pkid: num(t[1]), return_codes: vec![SubscribeReasonCode::Success(QoS::AtMostOnce)], properties: None }),
+            "UNSUBACK" => Packet::UnsubAck(UnsubAck { pkid: num(t[1]), reasons: vec![UnsubAckReason::Success], properties: None }),
+            "SUB" => Packet::Subscribe(Subscribe { pkid: num(t[1]), filters: filters(num(t[2]) as usize), properties: None }),
+            "UNSUB" => Packet::Unsubscribe(Unsubscribe { pkid: num(t[1]), filters: (0..num(t[2])).map(|i| format!("f{i}")).collect(), properties: None }),
+            "PINGREQ" => Packet::PingReq(PingReq),
+            "PINGRESP" => Packet::PingResp(PingResp),
+            "CONNECT" => Packet::Connect(Connect { keep_alive: 10, client_id: "c".into(), clean_start: true, properties: None }, None, None),
+            "CONNACK" => {
+                let (rm, tam) = (optn(t[3]), optn(t[4]));
+                let properties = if rm.is_some() || tam.is_some() {
+                    Some(ConnAckProperties { receive_max: rm, topic_alias_max: tam, ..conn_props() })
+                } else {
+                    None
+                };
+                Packet::ConnAck(ConnAck {
+                    session_present: t[1] == "1",
+                    code: if t[2] == "0" { ConnectReturnCode::Success } else { ConnectReturnCode::NotAuthorized },
+                    properties,
+                })
+            }
+            "DISCONNECT" => Packet::Disconnect(Disconnect::new(disc_reason(if t.len() > 1 { t[1].parse().unwrap() } else { 0 }))),
+            o => panic!("bad packet {o}"),
+        }
+    }
+    fn conn_props() -> ConnAckProperties {
+        ConnAckProperties {
+            session_expiry_interval: None,
+            receive_max: None,
+            max_qos: None,
+            retain_available: None,
+            max_packet_size: None,
+            assigned_client_identifier: None,
+            topic_alias_max: None,
+            reason_string: None,
+            user_properties: vec![],
+            wildcard_subscription_available: None,
+            subscription_identifiers_available: None,
+            shared_subscription_available: None,
+            server_keep_alive: None,
+            response_information: None,
+            server_reference: None,
+            authentication_method: None,
+            authentication_data: None,
+        }
+    }
+    fn ack_s(k: &str, id: u16, r: u8) -> String {
+        if r == 0 { format!("{k}:{id}") } else { format!("{k}:{id}:{r}") }
+    }
+    fn on(x: Option<u16>) -> String {
+        x.map(|v| v.to_string()).unwrap_or("-".into())
+    }
+    pub fn packet_s(p: &Packet) -> String {
+        match p {
+            Packet::Auth(_) => "AUTH".into(),
+            Packet::Connect(..) => "CONNECT".into(),
+            Packet::ConnAck(c) => format!(
+                "CONNACK:{}:{}:{}:{}",
+                c.session_present as u8,
+                if c.code == ConnectReturnCode::Success { 0 } else { 135 },
+                on(c.properties.as_ref().and_then(|p| p.receive_max)),
+                on(c.properties.as_ref().and_then(|p| p.topic_alias_max))
+            ),
+            Packet::Publish(p) => pub_s(p),
+            Packet::PubAck(a) => ack_s("PUBACK", a.pkid, puback_n(a.reason)),
+            Packet::PubRec(a) => ack_s("PUBREC", a.pkid, pubrec_n(a.reason)),
+            Packet::PubRel(a) => ack_s("PUBREL", a.pkid, if a.reason == PubRelReason::Success { 0 } else { 146 }),
+            Packet::PubComp(a) => ack_s("PUBCOMP", a.pkid, if a.reason == PubCompReason::Success { 0 } else { 146 }),
+            Packet::Subscribe(s) => format!("SUB:{}:{}", s.pkid, s.filters.len()),
+            Packet::SubAck(s) => format!("SUBACK:{}", s.pkid),
+            Packet::Unsubscribe(s) => format!("UNSUB:{}:{}", s.pkid, s.filters.len()),
+            Packet::UnsubAck(s) => format!("UNSUBACK:{}", s.pkid),
+            Packet::PingReq(_) => "PINGREQ".into(),
+            Packet::PingResp(_) => "PINGRESP".into(),
+            Packet::Disconnect(d) => {
+                let r = d.reason_code as u8;
+                if r == 0 { "DISCONNECT".into() } else { format!("DISCONNECT:{r}") }
+            }
+        }
+    }
+    pub fn request_s(r: &Request) -> String {
+        match r {
+            Request::Publish(p) => pub_s(p),
+            Request::PubAck(a) => format!("PUBACK:{}", a.pkid),
+            Request::PubRec(a) => format!("PUBREC:{}", a.pkid),
+            Request::PubComp(a) => format!("PUBCOMP:{}", a.pkid),
+            Request::PubRel(a) => format!("PUBREL:{}", a.pkid),
+            Request::PingReq => "PINGREQ".into(),
+            Request::PingResp => "PINGRESP".into(),
+            Request::Subscribe(s) => format!("SUB:{}:{}", s.pkid, s.filters.len()),
+            Request::SubAck(s) => format!("SUBACK:{}", s.pkid),
+            Request::Unsubscribe(s) => format!("UNSUB:{}:{}", s.pkid, s.filters.len()),
+            Request::UnsubAck(s) => format!("UNSUBACK:{}", s.pkid),
+            Request::Disconnect => "DISCONNECT".into(),
+        }
+    }
+    pub fn event_s(e: &Event) -> String {
+        match e {
+            Event::Incoming(p) => format!("I({})", packet_s(p)),
+            Event::Outgoing(o) => format!(
+                "O({})",
+                match o {
+                    Outgoing::Publish(i) => format!("PUB:{i}"),
+                    Outgoing::Subscribe(i) => format!("SUB:{i}"),
+                    Outgoing::Unsubscribe(i) => format!("UNSUB:{i}"),
+                    Outgoing::PubAck(i) => format!("PUBACK:{i}"),
+                    Outgoing::PubRec(i) => format!("PUBREC:{i}"),
+                    Outgoing::PubRel(i) => format!("PUBREL:{i}"),
+                    Outgoing::PubComp(i) => format!("PUBCOMP:{i}"),
+                    Outgoing::PingReq => "PINGREQ".into(),
+                    Outgoing::PingResp => "PINGRESP".into(),
+                    Outgoing::Disconnect => "DISCONNECT".into(),
+                    Outgoing::AwaitAck(i) => format!("AWAITACK:{i}"),
+                }
+            ),
+        }
+    }
+    pub fn error_s(e: &StateError) -> String {
+        match e {
+            StateError::Unsolicited(i) => format!("Unsolicited:{i}"),
+            StateError::AwaitPingResp => "AwaitPingResp".into(),
+            StateError::WrongPacket => "WrongPacket".into(),
+            StateError::CollisionTimeout => "CollisionTimeout".into(),
+            StateError::EmptySubscription => "EmptySubscription".into(),
+            StateError::InvalidAlias { alias, max } => format!("InvalidAlias:{alias}:{max}"),
+            StateError::ServerDisconnect { reason_code, .. } => format!("ServerDisconnect:{}", *reason_code as u8),
+            StateError::ConnFail { reason } => format!("ConnFail:{}", if *reason == ConnectReturnCode::Success { 0 } else { 135 }),
+            other => format!("Other:{}", format!("{other:?}").split(|c: char| !c.is_alphanumeric()).next().unwrap_or("")),
+        }
+    }
+    pub fn tail(s: &mut MqttState) -> String {
+        let evs: Vec<String> = s.events.drain(..).map(|e| event_s(&e)).collect();
+        format!("EV[{}] INFL {} COLL {}", evs.join(" "), s.inflight(), s.collision.is_some() as u8)
+    }
+}
+
 enum St {
     Dead,
     V4(rumqttc::MqttState),
+    V5(rumqttc::v5::MqttState),
 }
 
 fn main() {
@@ -192,6 +470,7 @@ fn main() {
             let manual = t[3] == "1";
             st = match t[1] {
                 "4" => St::V4(rumqttc::MqttState::new(max, manual)),
+                "5" => St::V5(rumqttc::v5::MqttState::new(max, manual)),
                 v => panic!("bad version {v}"),
             };
             writeln!(out, "NEW").unwrap();
@@ -220,6 +499,30 @@ fn main() {
                 }));
                 match r {
                     Ok(a) => format!("{} {}", a, v4::tail(s)),
+                    Err(_) => "PANIC".to_string(),
+                }
+            }
+            St::V5(s) => {
+                let r = catch_unwind(AssertUnwindSafe(|| match t[0] {
+                    "OUT" => match s.handle_outgoing_packet(v5::request(&t[1..])) {
+                        Ok(p) => format!("OK {}", p.map(|p| v5::packet_s(&p)).unwrap_or("-".into())),
+                        Err(e) => format!("ERR {}", v5::error_s(&e)),
+                    },
+                    "IN" => match s.handle_incoming_packet(v5::packet(&t[1..])) {
+                        Ok(p) => format!("OK {}", p.map(|p| v5::packet_s(&p)).unwrap_or("-".into())),
+                        Err(e) => format!("ERR {}", v5::error_s(&e)),
+                    },
+                    "CLEAN" => {
+                        let l: Vec<String> = s.clean().iter().map(v5::request_s).collect();
+                        format!("OK [{}]", l.join(" "))
+                    }
+                    o => {
+                        eprintln!("bad op {o}");
+                        std::process::exit(2)
+                    }
+                }));
+                match r {
+                    Ok(a) => format!("{} {}", a, v5::tail(s)),
                     Err(_) => "PANIC".to_string(),
                 }
             }
